@@ -7,12 +7,16 @@ def classify(case_line):
     # Parse and Validate, same evaluations, UID = hash of text, re-parsed text = text with its "!" runs collapsed
     if "not-under-not:known-shape" in case_line.get("tags", []):
         return "not-under-not"
+    # AcceptVisitor(PrefixVisitor): prefix + label name longer than the tokenizer's 512-byte limit, nothing else wrong
+    if "prefix:name-exceeds-512:known-shape" in case_line.get("tags", []):
+        return "prefix-label-too-long"
     return None
 
 CFG = dict(
-    imports=["From Verif.Common Require Import Labels.", "From Verif.C06 Require Import Model Spec."],
-    checker="check_case",
-    n=dict(quick=600, thorough=20000),
+    imports=["From Verif.Common Require Import Labels.", "From Verif.C06 Require Import Model Spec Visitor."],
+    checker="check_any",
+    driver_args=lambda ctx, n, seed: ["-n", n, "-seed", seed] + (["-xl"] if n >= 2000 else []),
+    n=dict(quick=440, thorough=16000),
     shard=65,
     classify=classify,
     rule="45 fixed boundary expressions, ~95 deep/long boundary expressions (parenthesis depth 15..40, 63..66, 100, 200 in shapes where String() adds parentheses, redundant parentheses, nested and long runs of negations, and/or chains of 50..300 operands, labels/values of 511..1024 bytes, 120-element sets), then 8% random deep expressions (depth 15..40) and grammar-directed selector expressions (all operators incl. both spellings of "
@@ -40,7 +44,7 @@ def run(ctx):
         return ts
     vlib.prop_targets = only_mine
     cfg = dict(CFG)
-    cfg["shard"] = 65 if ctx.tier == "quick" else 400     # 8 parallel shards in the quick tier, fewer coqc start-ups in the thorough one
+    cfg["shard"] = 45 if ctx.tier == "quick" else 400     # 8 parallel shards in the quick tier, fewer coqc start-ups in the thorough one
     try:
         return vlib.standard_flow(ctx, cfg)
     finally:
@@ -68,7 +72,14 @@ def replay(ctx, path):
         print("tags:", l["tags"])
         print("model agrees with implementation:", not bad or bad[0][1])
         print("specification oracle accepts implementation output:", not bad or bad[0][2])
-        if bad and not bad[0][2]:
+        if bad and not bad[0][2] and "prefix" in l["sample"]:
+            smp = l["sample"]
+            if not smp["reparse_accepted"]:
+                print("first differing observable: after AcceptVisitor(PrefixVisitor{%r}) the canonical text (%d bytes, longest label %d+%d) is REJECTED by Parse"
+                      % (smp["prefix"], len(smp["prefixed_canonical"]), len(smp["prefix"]), smp["max_label_len"]))
+            else:
+                print("first differing observable: prefixed canonical text %r re-parses to %r" % (smp["prefixed_canonical"][:200], smp["reparsed_canonical"][:200]))
+        elif bad and not bad[0][2]:
             smp = l["sample"]
             if smp["accepted"] != smp["validate_ok"]:
                 print("first differing observable: Validate and Parse disagree on acceptance")
